@@ -395,6 +395,26 @@ def run(facts, res):
                               "block checker accepts a block whose object is in no pack (incremental refresh applies it, a reload of the same storage holds "
                               "it back) and the value disappears when the entry is evicted" % b.path, b.loc(t.line))
     res.floor("D3", "functions that empty the object stage", n3c, 2)
+    # D3c': the same for the object index: a function that empties DataStorage.committed_objects (to rebuild it from the packs that are
+    # listed now) forgets every object whose pack is gone - the cache must forget them too, or the availability test answers from the
+    # cache for an object that is in no pack: the reloaded replica applies a block that a fresh open of the same storage holds back.
+    n3e = 0
+    for b in facts.repo_bodies():
+        if b.impl_adt != "datastorage::DataStorage":
+            continue
+        bcfg = cfg_of(b)
+        drops = [(bi, t) for bi, t in b.calls() if t.callee is not None and t.callee.name in DEL and t.args and
+                 _fp(_at(b, t, 0, 12))[0][:1] == ["committed_objects"]]
+        evicts = [bi for bi, t in b.calls() if t.callee is not None and "lru::LruCache" in (t.callee.path or "") and t.callee.name in ("clear", "pop", "pop_lru", "resize")]
+        for bi, t in drops:
+            n3e += 1
+            ok = any(bcfg.dominates(e_, bi) or bcfg.postdominates(e_, bi) for e_ in evicts)
+            res.instance("D3", "%s empties the object index: the object cache is emptied with it: %s" % (b.path, ok), b.loc(t.line))
+            if not ok:
+                res.violation("D3", "%s|index-dropped-cache-kept" % b.path,
+                              "%s forgets the object index without emptying the object cache: an object whose pack is no longer stored stays readable "
+                              "from the cache, so a reload applies a block that a fresh open of the same storage (or a smaller cache) holds back" % b.path, b.loc(t.line))
+    res.floor("D3", "functions that empty the object index", n3e, 1)
     # D3d: the cache is filled only with what has just been staged (or read back verified): every `put` into the object cache
     # lies behind the success edge of the call that stages the same object - not on a path where the staging was skipped
     # (sentinel revisions are never staged; cached under their digest they would shadow the value synthesised for them)
